@@ -182,7 +182,98 @@ class Engine:
     def _disarm(self):
         signal.setitimer(signal.ITIMER_REAL, 0)
 
-    def decide(self, t):
+    # ---- interval folding: single variable comparisons decided by known bounds -------------
+    def _atom(self, t):
+        """t as (var_id, op, const) with op in <=,>=,== ; or None.  neg handled by caller."""
+        Z = self.Z
+        k = t.decl().kind()
+        if k not in (Z.Z3_OP_LE, Z.Z3_OP_GE, Z.Z3_OP_EQ, Z.Z3_OP_LT, Z.Z3_OP_GT):
+            return None
+        a, b = t.arg(0), t.arg(1)
+        if Z.is_int_value(b) and Z.is_const(a) and a.decl().kind() == Z.Z3_OP_UNINTERPRETED:
+            v, c, flip = a, b.as_long(), False
+        elif Z.is_int_value(a) and Z.is_const(b) and b.decl().kind() == Z.Z3_OP_UNINTERPRETED:
+            v, c, flip = b, a.as_long(), True
+        else:
+            return None
+        if not Z.is_int(v):
+            return None
+        op = {Z.Z3_OP_LE: "<=", Z.Z3_OP_GE: ">=", Z.Z3_OP_EQ: "==", Z.Z3_OP_LT: "<",
+              Z.Z3_OP_GT: ">"}[k]
+        if flip:
+            op = {"<=": ">=", ">=": "<=", "==": "==", "<": ">", ">": "<"}[op]
+        if op == "<":
+            op, c = "<=", c - 1
+        elif op == ">":
+            op, c = ">=", c + 1
+        return v.get_id(), op, c
+
+    def decide_atom(self, sb):
+        """decide a SymBool that carries a pre-parsed atom (no z3 term parsing)"""
+        if self.eval_model is not None:
+            return self.Z.is_true(self.eval_model.eval(sb.t, model_completion=True))
+        v, op, c, neg = sb.atom
+        r, info = self._fold_atom(v.get_id(), op, c, neg)
+        if r is not None:
+            self.stats.folded += 1
+            return r
+        return self.decide(sb.t, info)
+
+    def _fold(self, t):
+        Z = self.Z
+        neg = False
+        while Z.is_not(t):
+            t = t.arg(0)
+            neg = not neg
+        at = self._atom(t)
+        if at is None:
+            return None, None
+        vid, op, c = at
+        return self._fold_atom(vid, op, c, neg)
+
+    def _fold_atom(self, vid, op, c, neg):
+        lo, hi = self.bounds.get(vid, (None, None))
+        r = None
+        if op == "<=":
+            if hi is not None and hi <= c:
+                r = True
+            elif lo is not None and lo > c:
+                r = False
+        elif op == ">=":
+            if lo is not None and lo >= c:
+                r = True
+            elif hi is not None and hi < c:
+                r = False
+        else:
+            if (lo is not None and c < lo) or (hi is not None and c > hi):
+                r = False
+            elif lo is not None and lo == hi == c:
+                r = True
+        if r is not None and neg:
+            r = not r
+        return r, (vid, op, c, neg)
+
+    def _learn(self, info, taken):
+        if info is None:
+            return
+        vid, op, c, neg = info
+        truth = taken != neg           # truth value of the atom itself
+        lo, hi = self.bounds.get(vid, (None, None))
+        if op == "<=":
+            if truth:
+                hi = c if hi is None else min(hi, c)
+            else:
+                lo = c + 1 if lo is None else max(lo, c + 1)
+        elif op == ">=":
+            if truth:
+                lo = c if lo is None else max(lo, c)
+            else:
+                hi = c - 1 if hi is None else min(hi, c - 1)
+        elif truth:
+            lo = hi = c
+        self.bounds[vid] = (lo, hi)
+
+    def decide(self, t, info=None):
         """t: z3 Bool term. Returns a python bool, forking the exploration."""
         Z = self.Z
         if self.eval_model is not None:
@@ -191,6 +282,11 @@ class Engine:
             return True
         if Z.is_false(t):
             return False
+        if info is None:
+            folded, info = self._fold(t)
+            if folded is not None:
+                self.stats.folded += 1
+                return folded
         self.ndec += 1
         self.stats.decisions += 1
         if self.ndec > self.max_decisions:
@@ -216,6 +312,7 @@ class Engine:
             if k is not INFEASIBLE and not k.done:
                 self.solver.add(t if b else Z.Not(t))
                 self.node = k
+                self._learn(info, b)
                 return b
         raise PathAbort()
 
@@ -228,6 +325,7 @@ class Engine:
         self.solver.add(t)
         if self._check() != "sat":
             raise PathAbort()
+        self._learn(self._fold(t)[1], True)
 
     def concretise(self, term, limit=256):
         """fork over every feasible value of an Int term under the path condition."""
